@@ -151,11 +151,39 @@ def projFile (fd : FileD) : List String :=
 
 def projAll (fds : List FileD) : String := " ".intercalate (fds.flatMap projFile)
 
+/-! ## the one standard import MiniProto knows -/
+
+def descriptorProtoPath : String := "google/protobuf/descriptor.proto"
+
+/-- what MiniProto needs of google/protobuf/descriptor.proto (resolved by
+    `protocompile.WithStandardImports` / `source.WKTs()`): package `google.protobuf`, proto2, the
+    nine options messages, each with `extensions 1000 to max` -/
+def descriptorProtoStub : FileA :=
+  let names := ["FileOptions", "MessageOptions", "FieldOptions", "OneofOptions", "ExtensionRangeOptions",
+                "EnumOptions", "EnumValueOptions", "ServiceOptions", "MethodOptions"]
+  { path := descriptorProtoPath, syn := .proto2, pkg := "google.protobuf", imports := [],
+    top := (List.range names.length).map (fun i => Elem.msg i),
+    msgs := names.map (fun n => { name := n, elems := [.extRange 1000 .max] }),
+    enums := [], svcs := [] }
+
+/-- the files the compiler ends up compiling: the requested ones, plus descriptor.proto when some
+    file imports it and the workspace does not define it -/
+def withStandardImports (ws : Workspace) : Workspace :=
+  if ws.any (fun f => f.imports.any (fun i => i.1 == descriptorProtoPath)) &&
+      !ws.any (fun f => f.path == descriptorProtoPath)
+  then ws ++ [descriptorProtoStub] else ws
+
+/-- compile the requested files (standard import added behind them); only the requested files
+    are returned -/
+def compileRequested (ck : Checks) (nm : Naming) (ws : Workspace) : Compiled :=
+  let c := compileWorkspace ck nm (withStandardImports ws)
+  { c with files := c.files.take ws.length }
+
 /-- the model's answer to a `ws …` op of the `link` engine -/
 def linkAnswer (ck : Checks) (nm : Naming) (ws : Workspace) : String :=
   if !wellFormed ws then "bad-op"
   else
-    let c := compileWorkspace ck nm ws
+    let c := compileRequested ck nm ws
     if c.errs.isEmpty then "ok " ++ projAll c.files
     else "err ~ " ++ " ".intercalate c.errs.eraseDups
 
